@@ -878,3 +878,6 @@ def run_malformed(r, obs, ctl):
         if out[0] != "foreign" and out != ("ok", ({}, [])):
             ctl.fail("str_to_dict-empty-string", "str_to_dict('') / str_to_list('') -> %r"
                      % (out,))
+
+
+RULE += (' Added: every formatter is reused on a sequence of contexts with and without the fields; keys containing a dot addressed in list / tuple / dictionary notation.')
